@@ -151,6 +151,29 @@ CORPUS = [
         ["set", "a", ["expr", ["call", V("r")]]], ["set", "b", ["expr", ["call", V("r")]]],
         E(["bin", "+", ["tacc", V("b"), 1], S("x")])]),
     ("sum-never-elem-type", ["C01"], [E(["post", ["post", ["array"], "~"], "$+"])]),
+    # S27: the reducer of `$+` / `$*` was chosen by the run-time type of the iterator alone; `[]~` (type
+    # () -> (bool, !)) at static type () -> (bool, float) gave the int 0 at static type float
+    ("sum-empty-iter-at-float", ["C01", "C02", "C11"], [
+        ["fndecl", "f", [["it", ["fun", [], ["tup", "bool", "float"]]]], "float", [ret(["post", V("it"), "$+"])]],
+        E(["bin", "+", ["call", V("f"), ["post", ["array"], "~"]], ["c", ["f", 4609434218613702656]]])]),
+    ("sum-empty-iter-at-string", ["C01", "C02", "C11"], [
+        ["fndecl", "f", [["it", ["fun", [], ["tup", "bool", "string"]]]], "string", [ret(["post", V("it"), "$+"])]],
+        ["set", "x", ["expr", ["call", V("f"), ["post", ["array"], "~"]]]],
+        E(["bin", "+", V("x"), S("a")])]),
+    ("product-empty-iter-at-float", ["C01", "C02", "C11"], [
+        ["fndecl", "f", [["it", ["fun", [], ["tup", "bool", "float"]]]], "float", [ret(["post", V("it"), "$*"])]],
+        E(["bin", "+", ["call", V("f"), ["post", ["array"], "~"]], ["c", ["f", 4609434218613702656]]])]),
+    ("sum-empty-iter-at-union", ["C01", "C11"], [
+        ["fndecl", "f", [["it", ["multi", ["fun", [], ["tup", "bool", "float"]], ["fun", [], ["tup", "bool", "string"]]]]],
+         ["multi", "float", "string"], [ret(["post", V("it"), "$+"])]],
+        E(["tuple", ["call", V("f"), ["post", ["array"], "~"]],
+           ["call", V("f"), ["post", ["array", S("a"), S("b")], "~"]],
+           ["call", V("f"), ["post", ["array", ["c", ["f", 4609434218613702656]]], "~"]]])]),
+    ("sum-int-iter-at-union", ["C01", "C11"], [
+        ["fndecl", "f", [["it", ["multi", ["fun", [], ["tup", "bool", "int"]], ["fun", [], ["tup", "bool", "float"]]]]],
+         ["tup", ["multi", "int", "float"], ["multi", "int", "float"]], [ret(["tuple", ["post", V("it"), "$+"], ["post", V("it"), "$*"]])]],
+        E(["tuple", ["call", V("f"), ["post", ["array"], "~"]],
+           ["call", V("f"), ["post", ["array", I(2), I(3)], "~"]]])]),
     ("sum-never-missing-return", ["C01", "C02"], [
         ["fndecl", "f", [], "int", [["set", "x", ["expr", ["post", ["post", ["array"], "~"], "$+"]]]]],
         E(["bin", "+", ["call", V("f")], I(1)])]),
